@@ -12,7 +12,7 @@ From IE Require Import Lib.Tbl Lib.C05Lib Gen.Codepage Gen.Formats Model.Attr Mo
 From IE Require Model.C02Loaders Proofs.C02BridgeProofs.
 From IE Require Import Model.C05SpecX Model.C05XBinC Model.C05Files Proofs.C05XBinCProofs Proofs.C05XBinResaveProofs Proofs.C05FilesProofs
   Proofs.C05IdfWideProofs.
-From IE Require Model.Sauce Model.SauceSpec.
+From IE Require Model.Sauce Model.SauceSpec Model.XBin.
 Import ListNotations.
 Local Open Scope Z_scope.
 
@@ -228,6 +228,15 @@ Theorem xb_compressed_file_exists_iff : forall p two pg0 pg1 f0 f1 fh, xb_shape_
   ((exists dc, save_xbo true p = Ok dc) <-> (exists du, save_xbo false p = Ok du)).
 Proof. exact xb_files_exist_alike. Qed.
 
+(* the compressed file is header, palette and font blocks followed by exactly one stream the XBin specification's decoder
+   (C06's xb_spec_rows, written from doc/FileFormats/x_bin.htm) accepts completely: nothing follows the last row *)
+Theorem xb_compressed_file_spec_conformant : forall p two pg0 pg1 f0 f1 fh dc, xb_shape_g p two pg0 pg1 f0 f1 fh ->
+  save_xbo true p = Ok dc ->
+  exists D, dc = xb_file p two f0 f1 fh true D /\
+            XBin.xb_spec_rows (Z.to_nat (p_w p)) (length (p_rows p)) D =
+            Some (map (map (fun c => (c_ch c, encode_attr (p_ice p) (xb_pages two pg0 pg1) c))) (p_rows p), []).
+Proof. exact xb_file_spec_conformant. Qed.
+
 (* round trips of compressed files, every representable picture *)
 Theorem xb_roundtrip_compressed_one_font : forall p s, representable_xb1 p ->
   exists data b, save_xbo true p = Ok data /\ C02Loaders.load_xb2 data s = Ok b /\ same_picture true [0%N] p (pic_of b).
@@ -256,6 +265,15 @@ Theorem xb_roundtrip_any_page : forall p s compress k f,
   get_font (p_fonts p) k = Some f -> fontok f ->
   exists data b, save_xbo compress p = Ok data /\ C02Loaders.load_xb2 data s = Ok b /\ same_picture_glyphs p (pic_of b).
 Proof. exact xb_roundtrip_page. Qed.
+
+(* ... and a picture that uses TWO font pages pa < pb, whatever their numbers: attribute bit 3 selects pb, the file loads with
+   pages 0 and 1 and the glyph tables of pa and pb in slots 0 and 1 *)
+Theorem xb_roundtrip_any_two_pages : forall p s compress pa pb fa fb h,
+  xb_common p -> used_pages (p_rows p) = [pa; pb] -> pa <> pb ->
+  all_pic_cells (fun c => cell8 (p_ice p) c /\ (foreground_color (c_attr c) < 8)%N /\ is_bold (c_attr c) = false) p ->
+  get_font (p_fonts p) pa = Some fa -> get_font (p_fonts p) pb = Some fb -> font_wf h fa -> font_wf h fb -> (1 <= h <= 32)%N ->
+  exists data b, save_xbo compress p = Ok data /\ C02Loaders.load_xb2 data s = Ok b /\ same_picture_glyphs p (pic_of b).
+Proof. exact xb_roundtrip_pages2. Qed.
 
 (* re-save of EVERY file the loader accepts - 256- and 512-character mode, compressed or not, any SAUCE - with either
    writer: the same picture up to the numbering of font pages, and with equal page numbers unless the file uses page 1 only
